@@ -233,7 +233,20 @@ func c01(c *ctx) {
 					in := append(append(vh.OwnEncode(h), payload...), sentinel...)
 					src := &vh.ChunkReader{Data: in, Sizes: []int{7, 1, 4096}}
 					rf, rerr := ws.ReadFrame(src)
-					rec := map[string]interface{}{"k": "frame", "key": key, "h": h, "plen": pl,
+					// the Must* forms are the same calls (and panic exactly when those fail)
+					mustOK := func() (ok bool) {
+						defer func() {
+							if recover() != nil {
+								ok = werr != nil || cerr != nil || rerr != nil
+							}
+						}()
+						var mb bytes.Buffer
+						ws.MustWriteFrame(&mb, f)
+						mc := ws.MustCompileFrame(f)
+						mr := ws.MustReadFrame(bytes.NewReader(in))
+						return bytes.Equal(mb.Bytes(), wb.Bytes()) && bytes.Equal(mc, cb) && mr.Header == rf.Header && bytes.Equal(mr.Payload, rf.Payload)
+					}()
+					rec := map[string]interface{}{"k": "frame", "key": key, "h": h, "plen": pl, "mustOK": mustOK,
 						"werr": werr != nil, "whdr": vh.Ints(wHdr), "wtotal": wb.Len(), "wpayOK": wPayOK,
 						"cerr": cerr != nil, "chdr": vh.Ints(cHdr), "ctotal": len(cb), "cpayOK": cPayOK,
 						"inhdr": vh.Ints(vh.OwnEncode(h)),
@@ -309,7 +322,12 @@ func c01(c *ctx) {
 			h.Len = vh.Len8(h.N)
 			in := append(vh.OwnEncode(h), vh.PBytes(1, 0, cut)...)
 			_, rerr := ws.ReadFrame(bytes.NewReader(in))
-			out.Emit(map[string]interface{}{"k": "framecut", "key": key, "plen": pl, "cut": cut, "rerr": vh.ErrClass(rerr)}, true)
+			mustPanics := func() (p bool) {
+				defer func() { p = recover() != nil }()
+				ws.MustReadFrame(bytes.NewReader(in))
+				return false
+			}()
+			out.Emit(map[string]interface{}{"k": "framecut", "key": key, "plen": pl, "cut": cut, "rerr": vh.ErrClass(rerr), "mustPanics": mustPanics}, true)
 			n++
 		}
 	}
